@@ -179,6 +179,15 @@ static int stream_cb(tp_task_p tptask, int error, io_buf_p buf, uint32_t eof, si
 		t->err_reported++;
 		sim_probe("c16.error_reported");
 		if (!t->peer_closed && !t->faults_seen) { sim_violation("io-false-error", "task %d: error %d reported although the peer is open and no fault was injected", t->slot, error); return TP_TASK_CB_NONE; }
+		if (t->kind == K_RECV && !t->faults_seen) {
+			/* bytes that had arrived before the connection broke are still readable and belong to the callback */
+			size_t want = t->peer_sent < t->init_tr ? t->peer_sent : t->init_tr;
+			if (t->done < want) {
+				sim_violation("io-data-lost-at-error", "task %d (evfl %x flags %x): error %d reported with %zu byte(s) delivered in total although %zu byte(s) had arrived before the peer reset and the window still has %zu free", t->slot, t->evfl, t->tflags,
+				    error, t->done, t->peer_sent, buf->transfer_size);
+				return TP_TASK_CB_NONE;
+			}
+		}
 		apply_action(t, A_STOP);
 		return TP_TASK_CB_NONE;
 	}
